@@ -4,7 +4,7 @@ Flow (DESIGN §6 C39):
   0. self-check of the file model on hand-written protocols (FsAtomicProto): in-place must violate,
      temp+fsync+rename must satisfy, temp+rename without fsync must violate under power loss only.
   1. record: the real `luafmt --write` runs under strace on small scenario directories; the syscalls
-     that touch the scenario directory become the script of FsAtomicTrace.
+     that touch the scenario directory become the script of FsAtomic (env TRACE).
   2. TLC replays the recording with Kill / WriteFault composed after every prefix and prints, for every
      fault point, the predicted directory and the verdicts KillOk / PowerOk.
   3. every fault point (quick: all; thorough: all for small files, a seeded sample for the block files)
@@ -339,10 +339,10 @@ def classify_units(c, orig, fmt):
 
 def proto_selfcheck(ctx):
     """FsAtomicProto: five hand-written protocols in one script; assert the model's verdict for each."""
-    res = vlib.tlc("FsAtomicProto", "FsAtomicProto", workers=1, timeout=300)
+    res = vlib.tlc("FsAtomic", "FsAtomic_q", workers=1, timeout=300)
     ctx.add_tlc(res)
     if res.violated:
-        raise vlib.ToolError("FsAtomicProto failed: %s\n%s" % (res.violated, res.trace_text[:1500]))
+        raise vlib.ToolError("FsAtomic protocol self-check failed: %s\n%s" % (res.violated, res.trace_text[:1500]))
     names = {1: "InPlace", 2: "TempRename", 3: "TempNoSync", 4: "UnlinkFirst", 5: "RenameOpen"}
     expect = {"InPlace": (False, False), "TempRename": (True, True), "TempNoSync": (True, False),
               "UnlinkFirst": (False, False), "RenameOpen": (False, False)}
@@ -361,7 +361,7 @@ def run_tlc(ctx, script, tag, brief=False):
     with open(path, "w") as f:
         for e in script:
             f.write(json.dumps(e) + "\n")
-    res = vlib.tlc("FsAtomicTrace", "FsAtomicTrace_brief" if brief else "FsAtomicTrace", workers=1,
+    res = vlib.tlc("FsAtomic", "FsAtomic_brief" if brief else "FsAtomic_q", workers=1,
                    timeout=ctx.pick(600, 2400), env={"TRACE": path})
     ctx.add_tlc(res)
     runs = [o for tg, o in res.json if tg == "RUN"]
@@ -369,7 +369,7 @@ def run_tlc(ctx, script, tag, brief=False):
     top = max([o["l"] for o in runs] or [0])
     if top != len(script) + 1 or res.violated:
         ev = script[top - 1] if 0 < top <= len(script) else None
-        raise vlib.ToolError("FsAtomicTrace cannot explain the recorded %s trace at event %d/%d: %s\n%s" % (
+        raise vlib.ToolError("FsAtomic cannot explain the recorded %s trace at event %d/%d: %s\n%s" % (
             tag, top, len(script), json.dumps(ev)[:400], res.trace_text[:1500]))
     return runs, cases
 
